@@ -4,6 +4,7 @@ import (
 	"go/ast"
 	"go/token"
 	"go/types"
+	"strings"
 
 	"verif/checker/internal/astx"
 	"verif/checker/internal/cfgx"
@@ -416,18 +417,106 @@ func c08(c *Ctx) {
 	}
 	// the Cond's Locker is messagesMu
 	if ctor := c.MustFunc("outputstream.NewOutputStream"); ctor != nil {
-		info := ctor.Info()
-		ok := false
-		for _, call := range astx.Calls(ctor.Body(), false) {
-			if fn := astx.Callee(info, call); fn != nil && isFunc(fn, "sync", "NewCond") && len(call.Args) == 1 {
-				if u, isU := ast.Unparen(call.Args[0]).(*ast.UnaryExpr); isU && u.Op == token.AND {
-					if se, isSel := ast.Unparen(u.X).(*ast.SelectorExpr); isSel && astx.FieldSel(info, se) != nil && astx.FieldSel(info, se) == c.P.Field("outputstream", "OutputStream", "messagesMu") {
-						ok = true
+		// wherever the package makes a condition variable (the constructor, or the one it delegates to), its Locker is messagesMu
+		ok, nCond := true, 0
+		for _, fi := range c.P.FuncsIn("outputstream") {
+			if fi.Body() == nil {
+				continue
+			}
+			info := fi.Info()
+			for _, call := range astx.Calls(fi.Body(), true) {
+				if fn := astx.Callee(info, call); fn != nil && isFunc(fn, "sync", "NewCond") && len(call.Args) == 1 {
+					nCond++
+					bound := false
+					if u, isU := ast.Unparen(call.Args[0]).(*ast.UnaryExpr); isU && u.Op == token.AND {
+						if se, isSel := ast.Unparen(u.X).(*ast.SelectorExpr); isSel && astx.FieldSel(info, se) != nil && astx.FieldSel(info, se) == c.P.Field("outputstream", "OutputStream", "messagesMu") {
+							bound = true
+						}
+					}
+					if !bound {
+						ok = false
 					}
 				}
 			}
 		}
-		r.Check(ok, "C08.S2", ctor.Name(), "the condition variable's Locker is messagesMu", c.P.Pos(ctor.Node().Pos()), "sync.NewCond(&os.messagesMu)", "newMessage is not bound to messagesMu")
+		r.Check(ok && nCond > 0, "C08.S2", ctor.Name(), "the condition variable's Locker is messagesMu", c.P.Pos(ctor.Node().Pos()), "sync.NewCond(&os.messagesMu)", "newMessage is not bound to messagesMu")
+	}
+
+	// ---------- S3b a stored batch is deleted with the readers shut out: eviction from the cache and removal from LevelDB are
+	// two steps; a reader that misses the cache between them reads the batch from LevelDB and puts it back into the cache,
+	// where it outlives its deletion. The LevelDB delete runs under messagesMu held for writing.
+	{
+		nDel := 0
+		pkgFns := c.P.FuncsIn("outputstream")
+		for _, fi := range pkgFns {
+			if fi.Body() == nil {
+				continue
+			}
+			info := fi.Info()
+			g := c.Graph(fi)
+			var lf *lockFlowResult
+			for _, v := range g.Nodes() {
+				for _, call := range astx.Calls(v.Node, false) {
+					fn := astx.Callee(info, call)
+					if fn == nil || fn.Name() != "Delete" || fn.Pkg() == nil || !strings.HasPrefix(fn.Pkg().Path(), pathLevelDB) {
+						continue
+					}
+					if rn := astx.RecvNamed(fn); rn == nil || rn.Obj().Name() != "DB" {
+						continue
+					}
+					nDel++
+					if lf == nil {
+						// an unexported helper starts with what every caller in the package holds where it calls it
+						entry := lockSet{}
+						if fi.Obj != nil && !fi.Obj.Exported() {
+							first := true
+							for _, cf := range pkgFns {
+								if cf.Body() == nil || cf == fi {
+									continue
+								}
+								cg := c.Graph(cf)
+								var clf *lockFlowResult
+								for _, cc := range callsIn(cf, func(f2 *types.Func, _ *ast.CallExpr) bool { return f2 == fi.Obj }) {
+									if clf == nil {
+										clf = c.lockFlow(cf, cg, lockSet{})
+									}
+									held := clf.must[cg.VertexOf(cc)]
+									if first {
+										entry, first = held.clone(), false
+									} else {
+										for k, m := range entry {
+											if held[k] != m {
+												delete(entry, k)
+											}
+										}
+									}
+								}
+							}
+						}
+						lf = c.lockFlow(fi, g, entry)
+					}
+					// … and so does the eviction of that batch from the cache, in the same function: evicting first and taking
+					// the lock afterwards lets a reader put the batch back in between
+					cf := c.P.Field("outputstream", "OutputStream", "messagesCache")
+					for _, u := range g.Nodes() {
+						for _, dc := range astx.Calls(u.Node, false) {
+							if astx.Builtin(info, dc) != "delete" || len(dc.Args) != 2 {
+								continue
+							}
+							if se, isSel := ast.Unparen(dc.Args[0]).(*ast.SelectorExpr); isSel && cf != nil && astx.FieldSel(info, se) == cf {
+								r.Check(lf.must[u.ID]["OutputStream.messagesMu"] == "W", "C08.S3", fi.Name(), "the batch is evicted from the cache in the critical section that deletes it", c.P.Pos(dc.Pos()), "lockset "+lf.must[u.ID].String(),
+									"the cache entry is dropped without messagesMu held for writing while the removal from LevelDB happens later under it: a reader in between misses the cache, reads the batch from LevelDB and caches it again — the deleted batch is served from then on")
+							}
+						}
+					}
+					r.Check(lf.must[v.ID]["OutputStream.messagesMu"] == "W", "C08.S3", fi.Name(), "a batch is deleted from LevelDB with messagesMu held for writing", c.P.Pos(call.Pos()), "lockset "+lf.must[v.ID].String(),
+						"the batch is removed from LevelDB while readers may run (read lock, or none): a Get / GetNext that misses the cache between the eviction and the removal re-inserts the batch, and the deleted batch is served from the cache from then on")
+				}
+			}
+		}
+		if nDel == 0 {
+			r.Break("C08.S3: no LevelDB Delete found in package outputstream")
+		}
 	}
 
 	// ---------- S3
